@@ -360,6 +360,24 @@ def rule_SIG(ctx, repo):
     if not pos:
         raise AnalysisError('anchor changed: signature is expected to take (func, ...)')
     fn = 'P:' + pos[0]
+    # inspect.signature() follows __wrapped__ unless told not to: the parameters it reports are those of the innermost decorated function
+    for node in ast.walk(sig.node):
+        if isinstance(node, ast.Call):
+            f = node.func
+            origin = None
+            if isinstance(f, ast.Attribute) and isinstance(f.value, ast.Name):
+                origin = m.imports.get(f.value.id, f.value.id) + '.' + f.attr
+            elif isinstance(f, ast.Name) and f.id != sig.name:
+                origin = m.imports.get(f.id)
+            if origin in ('inspect.signature', 'inspect.Signature.from_callable'):
+                fw = [k for k in node.keywords if k.arg == 'follow_wrapped']
+                ok = bool(fw) and isinstance(fw[0].value, ast.Constant) and fw[0].value.value is False
+                ctx.ob('V-TARGET', '%s:%d inspect.signature(follow_wrapped=False)' % (m.rel, node.lineno), ok)
+                if not ok:
+                    ctx.fail('V-TARGET', sig.qual, 'inspect.signature follows __wrapped__',
+                             'signature() asks inspect.signature() for the parameters without follow_wrapped=False: for a function decorated with functools.wraps it reports '
+                             'the parameters of the wrapped function, while binding func(*args, **kwds) is decided by the wrapper\'s own parameters - validate/isvalid '
+                             'and the key are computed for a different signature', '%s:%d' % (m.rel, node.lineno))
     eng = DepEngine(m, field_roots=set(FIELD_ROOTS) | set([fn, fn + '.func']), source_calls=SOURCE_CALLS)
     eng.run(sig.node, sig.qual, {})
     ctx.analysed(sig.qual)
@@ -560,6 +578,63 @@ def rule_V(ctx, repo):
                      'no accept/reject decision of validate depends on %s, although Python\'s own binding does: for some signature the verdict must be wrong '
                      '(e.g. a required keyword-only parameter is never demanded, and a keyword-only name is rejected as unexpected when there is no **kwds)' % what,
                      '%s:%d' % (m.rel, fi.node.lineno))
+    # ---- V-DUP: a parameter given both by position and by keyword is rejected for every function, with or without *args / **kwds
+    fn = fi.node
+    parents = {}
+    for n_ in ast.walk(fn):
+        for ch in ast.iter_child_nodes(n_):
+            parents[ch] = n_
+    defs = {}
+    for n_ in ast.walk(fn):
+        if isinstance(n_, ast.Assign):
+            used = set(x.id for x in ast.walk(n_.value) if isinstance(x, ast.Name))
+            for t in n_.targets:
+                for x in ast.walk(t):
+                    if isinstance(x, ast.Name):
+                        defs.setdefault(x.id, set()).update(used)
+
+    def closure(names):
+        seen, todo = set(), list(names)
+        while todo:
+            x = todo.pop()
+            if x in seen:
+                continue
+            seen.add(x)
+            todo.extend(defs.get(x, ()))
+        return seen
+    # the locals holding signature()'s variadic markers (3rd and 4th element of its result)
+    variadic = set()
+    for n_ in ast.walk(fn):
+        if isinstance(n_, ast.Assign) and isinstance(n_.value, ast.Call) and isinstance(n_.value.func, ast.Name) and n_.value.func.id == 'signature' \
+                and len(n_.targets) == 1 and isinstance(n_.targets[0], ast.Tuple) and len(n_.targets[0].elts) == 4:
+            variadic |= set(x.id for x in n_.targets[0].elts[2:] if isinstance(x, ast.Name))
+    pa, pk = fn.args.vararg.arg, fn.args.kwarg.arg
+    dup_free, dup_nested = [], []
+    for n_ in ast.walk(fn):
+        if not isinstance(n_, ast.Raise) or n_.exc is None:
+            continue
+        guards = []
+        cur = n_
+        while cur in parents and parents[cur] is not fn:
+            par = parents[cur]
+            if isinstance(par, ast.If) and cur in par.body:
+                guards.append(par.test)
+            cur = par
+        if not guards:
+            continue
+        inner = closure(x.id for x in ast.walk(guards[0]) if isinstance(x, ast.Name))
+        if not (pa in inner and pk in inner and 'multiple values' in unparse(n_.exc)):
+            continue
+        under = set(x.id for g in guards for x in ast.walk(g) if isinstance(x, ast.Name)) & variadic
+        (dup_nested if under else dup_free).append((n_, sorted(under)))
+    if variadic and (dup_free or dup_nested):
+        ok = bool(dup_free)
+        ctx.ob('V-DUP', 'a name given by position and by keyword is rejected whatever the variadics', ok)
+        if not ok:
+            n_, under = dup_nested[0]
+            ctx.fail('V-DUP', fi.qual, 'duplicate check only when not %s' % ' / '.join(under),
+                     'validate reports "multiple values" for a parameter given both by position and by keyword only under a test of `%s`: for a function that takes '
+                     '**kwds (or *args) the duplicate is accepted, although Python raises TypeError for it' % ', '.join(under), '%s:%d' % (m.rel, n_.lineno))
     # ---- V-ISVALID: isvalid is "validate did not raise"
     isv = m.functions['isvalid']
     ctx.analysed(isv.qual)
